@@ -340,3 +340,28 @@ _add386("C17", ["structured", "mutations"], rapid_div=6)  # lengths with bit 31 
 _add386("C17", ["headers", "cuts", "concurrent"], thorough_only=True)
 for _p in ("C01", "C03", "C05", "C14", "C15", "C16", "C18", "C19"):
     _add386(_p, None, thorough_only=True)
+
+# ---- the binary_log build of checks whose property is not about an encoding: the same harness, output parsed
+# as CBOR (lp.BinaryBuild) or compared as opaque bytes
+
+
+def _addcbor(pid, names, rapid_div=3):
+    extra = []
+    for j in PROPS[pid]["jobs"]:
+        if j["name"] not in names or j.get("goarch") or j.get("sched"):
+            continue
+        c = _copy.deepcopy(j)
+        c["name"] += "-cbor"
+        c["tags"] = "binary_log verif"
+        c.pop("replay", None)
+        if c.get("rapid"):
+            c["rapid"] = {k: max(100, v // rapid_div) for k, v in c["rapid"].items()}
+        extra.append(c)
+    PROPS[pid]["jobs"] = PROPS[pid]["jobs"] + extra
+    PROPS[pid]["assumptions"] = PROPS[pid]["assumptions"] + ["jobs named *-cbor run the same harness with -tags binary_log: events are parsed as CBOR and compared with the same expected events (or compared as opaque bytes where the check never parses them)"]
+
+
+_addcbor("C03", ["rapid", "trees"])
+_addcbor("C05", ["trees", "concurrent-trees"])
+_addcbor("C13", ["logger"])
+_addcbor("C15", ["rapid", "concurrent"])
